@@ -42,8 +42,8 @@ def plan(tier, seed):
                [{'kind': 'docs', 'vocab': 'custom', 'count': 1200, 'depth': 4, 'name': 'cdoc%d' % k, 'cb': 40 * k} for k in range(3)] + \
                [{'kind': 'soup', 'count': 5000, 'name': 'soup%d' % k} for k in range(4)] + \
                [{'kind': 'nlargs', 'count': 3000, 'name': 'nlargs%d' % k} for k in range(2)]
-    return [{'kind': 'docs', 'vocab': 'default', 'count': 8000, 'depth': 4 + k % 3, 'name': 'ddoc%d' % k} for k in range(8)] + \
-           [{'kind': 'docs', 'vocab': 'custom', 'count': 8000, 'depth': 4 + k % 3, 'name': 'cdoc%d' % k, 'cb': 300 * k} for k in range(8)] + \
+    return [{'kind': 'docs', 'vocab': 'default', 'count': 20000, 'depth': 4 + k % 3, 'name': 'ddoc%d' % k} for k in range(12)] + \
+           [{'kind': 'docs', 'vocab': 'custom', 'count': 20000, 'depth': 4 + k % 3, 'name': 'cdoc%d' % k, 'cb': 300 * k} for k in range(12)] + \
            [{'kind': 'soup', 'count': 40000, 'name': 'soup%d' % k} for k in range(8)] + \
            [{'kind': 'nlargs', 'count': 30000, 'name': 'nlargs%d' % k} for k in range(4)]
 
